@@ -72,6 +72,25 @@ impl Pay for HeapVal {
     }
 }
 
+/// Plain 40-byte value (no destructor, bigger than a cache-friendly "small value"): code paths chosen by
+/// `size_of::<V>()` or `needs_drop::<V>()` see the other side of their condition than with `u16` / `HeapVal`.
+#[derive(Clone, Default, PartialEq, Debug)]
+pub struct WideVal(pub [u64; 5]);
+impl Pay for WideVal {
+    const NAME: &'static str = "WideVal";
+    fn mk(key: u8, bit: bool) -> Self {
+        let k = key as u64;
+        WideVal([0x100 | (k << 1) | bit as u64, k.wrapping_mul(0x9e37_79b9_7f4a_7c15), !k, k ^ 0x5a5a, 7])
+    }
+    fn code(&self) -> u32 {
+        let mut c = 0u64;
+        for w in &self.0 {
+            c = c.wrapping_mul(0x100_0000_01b3).wrapping_add(*w);
+        }
+        (c ^ (c >> 32)) as u32
+    }
+}
+
 /// Heap-backed value whose `Clone` and `Default` are user callbacks in the sense of the fault enumeration: they are
 /// counted, and a panic can be injected at each of them (the library clones values when a two-children entry is
 /// removed and when the arena grows).  Clone and Default are not among the callbacks C18 lists, so only the
